@@ -2,7 +2,7 @@
    and refines the reference semantics (plain finite maps). *)
 From stdpp Require Import gmap list.
 From Coq Require Import NArith Lia.
-From G Require Import Arith Monad Types Inv Raw RawProofs Map MapProofs IterProofs CloneProofs Cost EntryProofs EntryCost.
+From G Require Import Arith Monad Types Inv Raw RawProofs Map MapProofs IterProofs CloneProofs Cost EntryProofs EntryCost SetProofs.
 Local Open Scope N_scope.
 
 (* ---------------------------------------------------------------- the reference *)
@@ -28,6 +28,14 @@ Definition chain_rel (raw : bool) (held : option N) (σ : gmap N (gmap N elem)) 
      | RPanic p m' => r = OutP p /\ σ' = <[s := m']> σ
      | RBad => False
      end).
+
+Definition pred_math (kind : N) (ma mb : gmap N elem) : Prop :=
+  match kind with
+  | 0 => forall k, ~ (is_Some (ma !! k) /\ is_Some (mb !! k))
+  | 1 => dom_sub ma mb
+  | 2 => dom_sub mb ma
+  | _ => forall k, is_Some (ma !! k) <-> is_Some (mb !! k)
+  end.
 
 Definition spec_rel (σ : gmap N (gmap N elem)) (o : op) (r : out) (σ' : gmap N (gmap N elem)) : Prop :=
   match o with
@@ -90,6 +98,12 @@ Definition spec_rel (σ : gmap N (gmap N elem)) (o : op) (r : out) (σ' : gmap N
   | ORawEntry s variant k ss => chain_rel true None σ s k ss r σ'
   | ORawGet s variant k => exists m : gmap N elem, σ !! s = Some m /\
       r = OutOKV ((fun e => (ekid e, ev e)) <$> m !! k) /\ σ' = σ
+  (* HashSet algebra: each key of the mathematical result exactly once (the result is shown
+     sorted; l is what was yielded), every yielded object an element of one of the operands *)
+  | OSetAlg kind a b => exists ma mb : gmap N elem, σ !! a = Some ma /\ σ !! b = Some mb /\ σ' = σ /\
+      exists l, r = OutL (sorted3 l) /\ alg_ok (if kind <? 4 then kind else kind - 4) ma mb l
+  | OSetPred kind a b => exists ma mb : gmap N elem, σ !! a = Some ma /\ σ !! b = Some mb /\ σ' = σ /\
+      exists bb, r = OutB bb /\ (bb = true <-> pred_math kind ma mb)
   | _ => True
   end.
 
@@ -101,6 +115,7 @@ Definition core_op (o : op) : Prop :=
   | OIter _ _ _ | ORetain _ _ _ | ODrainFilter _ _ _ _ _ | ODrain _ _ _ | OIntoIter _ _ => True
   | OClone _ _ | OCloneFrom _ _ | OEq _ _ => True
   | OEntry _ _ _ _ | ORawEntry _ _ _ _ | ORawGet _ _ _ => True
+  | OSetAlg _ _ _ | OSetPred _ _ _ => True
   | OReserve _ n | OTryReserve _ n => n <= usize_max
   | _ => False
   end.
@@ -484,6 +499,23 @@ Proof.
       rewrite Eop. cbn [spec_rel]. exists (rt_abs (m_rt ms)). split; [apply wabs_lookup; exact Hs|].
       split; [reflexivity|]. apply store_same; assumption.
     + intros p s1 (Hs1 & ->). right. split; [reflexivity|]. apply WInv_store; [exact HW|rewrite Hs1; exact HI].
+  - (* OSetAlg *)
+    destruct (w_maps w !! a) as [ma|] eqn:Ea; [|right; reflexivity]. destruct (w_maps w !! b) as [mb|] eqn:Eb; [|right; reflexivity].
+    destruct (_ || _); [right; reflexivity|]. cbn [wres]. unfold step_post. split; [exact HW|].
+    rewrite Eop. cbn [spec_rel]. exists (rt_abs (m_rt ma)), (rt_abs (m_rt mb)).
+    split; [apply wabs_lookup, Ea|]. split; [apply wabs_lookup, Eb|]. split; [reflexivity|].
+    pose proof (HW a ma Ea) as Ia. pose proof (HW b mb Eb) as Ib. unfold set_alg. destruct (kind <? 4).
+    + eexists. split; [reflexivity|]. apply (s_alg_spec c); assumption.
+    + eexists. split; [reflexivity|]. pose proof (s_alg_spec c (kind - 4) _ _ Ia Ib) as Hok.
+      eapply alg_ok_perm; [apply collect_perm; apply Hok|exact Hok].
+  - (* OSetPred *)
+    destruct (w_maps w !! a) as [ma|] eqn:Ea; [|right; reflexivity]. destruct (w_maps w !! b) as [mb|] eqn:Eb; [|right; reflexivity].
+    destruct (_ || _); [right; reflexivity|]. cbn [wres]. unfold step_post. split; [exact HW|].
+    rewrite Eop. cbn [spec_rel]. exists (rt_abs (m_rt ma)), (rt_abs (m_rt mb)).
+    split; [apply wabs_lookup, Ea|]. split; [apply wabs_lookup, Eb|]. split; [reflexivity|].
+    pose proof (HW a ma Ea) as Ia. pose proof (HW b mb Eb) as Ib. eexists. split; [reflexivity|].
+    unfold set_pred, pred_math. destruct kind as [|[[p|p|]|[p|p|]|]];
+      first [apply (s_is_disjoint_spec c); assumption | apply (s_is_subset_spec c); assumption | apply (s_eq_spec c); assumption].
 Qed.
 
 (* ------------------------------------------------------------------ without a fuse, no user panic *)
@@ -547,6 +579,8 @@ Proof.
   - apply wnf_rmap. apply with_slot_gen_nf; [|exact Hf]. apply (nf_of_cost _ _ (cost_map_entry c k kid steps)).
   - apply wnf_rmap. apply with_slot_gen_nf; [|exact Hf]. apply (nf_of_cost _ _ (cost_map_raw_entry c variant k steps)).
   - apply with_slot_gen_nf; [|exact Hf]. apply (nf_of_cost _ _ (cost_map_raw_get variant k)).
+  - destruct (w_maps w !! a) as [ma|]; [|exact I]. destruct (w_maps w !! b) as [mb|]; [|exact I]. destruct (_ || _); [exact I|exact Hf].
+  - destruct (w_maps w !! a) as [ma|]; [|exact I]. destruct (w_maps w !! b) as [mb|]; [|exact I]. destruct (_ || _); [exact I|exact Hf].
 Qed.
 
 (* ------------------------------------------------------------------ histories *)
